@@ -49,6 +49,19 @@ Definition ids_len (e : ids_expr) : Z :=
 (* range(a, b) *)
 Definition zrange (a b : Z) : list Z := zseq a (Z.to_nat (b - a)).
 Definition req_ids (o : option (list Z)) : list Z := match o with Some l => l | None => [] end.
+
+(* the batch_ids ARGUMENT of gen_cluster_script as the caller spells it: absent, a single int
+   (documented: "int or tuple[int]"), or a sequence of ints *)
+Inductive ids_arg := ArgNone | ArgInt (z : Z) | ArgList (l : list Z).
+Definition arg_is_some (a : ids_arg) : bool := match a with ArgNone => false | _ => true end.
+Definition arg_is_int (a : ids_arg) : bool := match a with ArgInt _ => true | _ => false end.
+(* the Python expression (batch_ids,) evaluated where batch_ids is an int *)
+Definition arg_singleton (a : ids_arg) : ids_arg := match a with ArgInt z => ArgList [z] | _ => a end.
+(* tuple(batch_ids): of a sequence its elements; of an int Python raises TypeError (no ids) *)
+Definition arg_ids (a : ids_arg) : list Z := match a with ArgList l => l | _ => [] end.
+(* what the request means: an int denotes the one-element list *)
+Definition norm_ids (a : ids_arg) : option (list Z) :=
+  match a with ArgNone => None | ArgInt z => Some [z] | ArgList l => Some l end.
 Definition opt_is_some {A} (o : option A) : bool := match o with Some _ => true | None => false end.
 
 Record selection := mk_sel {
